@@ -205,7 +205,7 @@ class Scenario:
                 acts += ['job'] * 2
             if chaos and rng.random() < 0.1:
                 acts += ['close', 'delete']
-            if self.writers and len(self.plans) < WMAX and not self.plain and rng.random() < 0.06:
+            if self.writers and len(self.plans) < WMAX and not self.plain and rng.random() < 0.12:
                 acts += ['reopen']
             if not acts:
                 break
